@@ -35,6 +35,10 @@ sel.sort(key=lambda h: -h["t"])
 with cf.ThreadPoolExecutor(max_workers=10) as ex:
     for fut in cf.as_completed([ex.submit(work, h) for h in sel]):
         r = fut.result()
+        import json as _j
+        with open(os.environ.get("BATCH_JSON", "/tmp/batch.jsonl"), "a") as _fh:
+            _fh.write(_j.dumps({k: r.get(k) for k in ("harness", "verdict", "wall_s", "sat_variables", "solver_s", "reason", "flavour")}
+                               | {"failed": sorted({c["desc"] for c in r["failed_checks"]})}) + "\n")
         print("%-42s %-12s %7.1fs vars=%s solver=%ss %s %s" % (r["harness"], r["verdict"], r["wall_s"], r.get("sat_variables"),
               r.get("solver_s"), sorted({c["desc"] for c in r["failed_checks"]})[:3], (r.get("reason") or "")[:110]), flush=True)
 print("logs in", base)
